@@ -167,6 +167,97 @@ def rand_grammar(rng):
     return g
 
 
+LIST_FIXED = [
+    # the shape that let a seeded change slip through (seeded/C10-2): left-recursive separator list whose
+    # element is nullable and predicted again at its own end
+    {START: ["<list>"], "<list>": ["<list>,<word>", "<word>"], "<word>": ["", "<letter><word>"], "<letter>": ["a", "b"]},
+    {START: ["<l>"], "<l>": ["<l>,<w>", "<w>"], "<w>": ["", "a<w>"]},
+    {START: ["<l>"], "<l>": ["<w>;<l>", "<w>"], "<w>": ["", "<w>a"]},                       # right-recursive list
+    {START: ["<l>"], "<l>": ["<l>,<l>", "<w>"], "<w>": ["", "a"]},                           # ambiguous list
+    {START: ["<l>"], "<l>": ["<l>,<i>", "<i>"], "<i>": ["<i>;<x>", "<x>"], "<x>": ["", "a"]},  # nested lists
+    {START: ["[<l>]"], "<l>": ["<l>a<w>", "<w>"], "<w>": ["", "a<w>", "[<l>]"]},             # separator = element letter
+]
+
+
+def list_grammar(rng):
+    """separator lists: left/right/ambiguous recursion x nullable/recursive/nested elements"""
+    sep = rng.choice([",", ";", " ", ", ", "a", ","])
+    letters = rng.sample(["a", "b", "0"], rng.randint(1, 2))
+    X = rng.choice(letters)
+    Y = rng.choice(letters)
+    g = {}
+    kind = rng.choice(["null_rr", "null_lr", "opt", "plain", "nested_br", "nested_list", "letters_nt", "null_rr"])
+    if kind == "null_rr":
+        g["<w>"] = ["", X + "<w>"] + ([Y + "<w>"] if Y != X else [])
+    elif kind == "null_lr":
+        g["<w>"] = ["", "<w>" + X]
+    elif kind == "opt":
+        g["<w>"] = ["", X]
+    elif kind == "plain":
+        g["<w>"] = [X, X + Y]
+    elif kind == "nested_br":
+        g["<w>"] = ["", X, "(<l>)"]
+    elif kind == "nested_list":
+        sep2 = ";" if sep != ";" else "."
+        g["<w>"] = ["<w>" + sep2 + "<x>", "<x>"] if rng.random() < 0.5 else ["<x>" + sep2 + "<w>", "<x>"]
+        g["<x>"] = ["", X] if rng.random() < 0.7 else ["", X + "<x>"]
+    else:
+        g["<w>"] = ["", "<c><w>"]
+        g["<c>"] = sorted(set(letters))
+    dirn = rng.choice(["left", "left", "right", "both", "left_eps"])
+    if dirn == "left":
+        g["<l>"] = ["<l>" + sep + "<w>", "<w>"]
+    elif dirn == "right":
+        g["<l>"] = ["<w>" + sep + "<l>", "<w>"]
+    elif dirn == "both":
+        g["<l>"] = ["<l>" + sep + "<l>", "<w>"]
+    else:
+        g["<l>"] = ["<l>" + sep + "<w>", "<w>" + sep, "<w>"]
+    start = rng.choice(["<l>", "<l>", "<l>", "[<l>]", "<l>" + sep, "<l>", "<w>" + sep + "<l>"])
+    out = {START: [start]}
+    if rng.random() < 0.15:
+        out[START].append(X)      # several alternatives for <start>
+    for k in ["<l>", "<w>", "<x>", "<c>"]:
+        if k in g:
+            out[k] = g[k]
+    return out
+
+
+def sample_members(cg, rng, want, minlen, maxlen):
+    """random members of L(cg, <start>) with minlen <= length <= maxlen (random leftmost derivations)"""
+    found = []
+    for _ in range(60 * want):
+        form, out, steps = [START], "", 0
+        while form and steps < 60 and len(out) <= maxlen:
+            steps += 1
+            x = form.pop(0)
+            if x in cg:
+                alts = cg[x]
+                # prefer short alternatives when the sentential form is already long
+                a = rng.choice(alts) if len(form) < 4 else min(alts, key=len)
+                form = list(a) + form
+            else:
+                out += x
+        if not form and minlen <= len(out) <= maxlen and out not in found:
+            found.append(out)
+            if len(found) >= want:
+                break
+    return found
+
+
+def corpus_cases():
+    """corpus/C10/*.json: witnesses of fixed findings and of past misses, always run first"""
+    d = os.path.join(lib.VERIF, "corpus", "C10")
+    res = []
+    if os.path.isdir(d):
+        for f in sorted(os.listdir(d)):
+            if f.endswith(".json"):
+                c = json.load(open(os.path.join(d, f)))
+                res.append((c["grammar"], {"maxlen": c.get("maxlen", 3), "extra": c.get("inputs", []),
+                                           "corpus": f, "alphabet": c.get("alphabet")}))
+    return res
+
+
 def acceptable(g):
     cg = canonical(g)
     for A, alts in cg.items():
@@ -271,6 +362,15 @@ def probe_flags(run, fnd):
         flags[flag] = not present
         if present:
             run.known(e["what"])
+    e = fnd.get("solver-startoverride")
+    if e and e.get("status") == "open":
+        w = e["witness"]
+        try:
+            o = impl_solver_parse(ISLaSolver(w["grammar"]), w["input"], w["nonterminal"])
+        except Exception:
+            o = ("raise", "OtherErr")
+        if o[0] == "ok":
+            run.known(e["what"])
     return flags
 
 
@@ -304,7 +404,7 @@ def property_at(cg, nt, w, o):
     return None
 
 
-def classify_known(cg, nt, w, o, why, flags, fnd):
+def classify_known(cg, nt, w, o, why, flags, fnd, mode=0):
     """a property failure that belongs to an open known-finding class -> its entry"""
     e = fnd.get("multistart")
     if e and e.get("status") == "open" and not flags["fxA"] and K_multistart(cg, nt) and \
@@ -314,19 +414,39 @@ def classify_known(cg, nt, w, o, why, flags, fnd):
     if e and e.get("status") == "open" and not flags["fxB"] and K_recstart(cg, nt) and o[0] == "ok" and \
             ("non-member" in why or "different string" in why):
         return e
+    e = fnd.get("solver-startoverride")
+    if e and e.get("status") == "open" and mode == 2 and nt != START and K_recstart(cg, START) and \
+            ("non-member" in why or "rejects a member" in why or "not a derivation tree" in why):
+        return e
     return None
 
 
 def build_cases(run, rng, thorough):
-    grammars = [dict(g) for g in FIXED]
-    want = 400 if thorough else 40
-    tries = 0
-    while len(grammars) < want and tries < 100000:
+    """[(grammar, opts)]: corpus first, fixed families, separator-list family, random CFGs"""
+    N = 6 if thorough else 4
+    out = corpus_cases()
+    have = [g for g, _ in out]
+    for g in FIXED:
+        if g not in have:
+            out.append((dict(g), {"maxlen": N})); have.append(g)
+    for g in LIST_FIXED:
+        if g not in have:
+            out.append((dict(g), {"maxlen": 5, "list": True})); have.append(g)
+    want_list = 60 if thorough else 10
+    tries = n = 0
+    while n < want_list and tries < 10000:
+        tries += 1
+        g = list_grammar(rng)
+        if acceptable(g) and g not in have:
+            out.append((g, {"maxlen": 5, "list": True})); have.append(g); n += 1
+    want = 340 if thorough else 28
+    tries = n = 0
+    while n < want and tries < 100000:
         tries += 1
         g = rand_grammar(rng)
-        if acceptable(g) and g not in grammars:
-            grammars.append(g)
-    return grammars
+        if acceptable(g) and g not in have:
+            out.append((g, {"maxlen": N})); have.append(g); n += 1
+    return out
 
 
 def run(run):
@@ -334,15 +454,22 @@ def run(run):
     thorough = run.tier == "thorough"
     N = 6 if thorough else 4
     run.cov["rule"] = (
-        f"{'400' if thorough else '40'} grammars (12 fixed: ambiguity, Aycock-Horspool nullables, hidden left recursion, "
-        "multi-character and non-ASCII terminals, the recorded defect classes; rest random: 2-4 nonterminals, 1-3 "
-        "alternatives of 0-3 symbols, epsilon rate 0/.15/.3, 1-2 character terminals, <start> with 2 alternatives "
-        "in 15%, <start> on a right-hand side in ~7% of nonterminal picks; cyclic unit/nullable grammars rejected) x ALL "
-        f"strings of length <= {N} over the grammar's alphabet (capped at 3 letters) + strings with one foreign character, "
-        "through EarleyParser.parse, EarleyParser.parse_on(w, nt) for every other nonterminal and "
-        f"ISLaSolver.parse(w, nt, skip_check=True) for every nonterminal (both for length <= {3 if thorough else 2}). Compared: exception kind / ordered list of the first "
-        "<= 8 trees. non-trivial = string of length >= 1 whose membership differs from that of another tested "
-        "string of the same grammar and start symbol")
+        "grammars: corpus/C10 (witnesses of fixed findings and of a missed seeded change, with their recorded inputs) + "
+        "12 fixed (ambiguity, Aycock-Horspool nullables, hidden left recursion, multi-character and non-ASCII terminals, "
+        "the recorded defect classes) + 6 fixed and "
+        f"{60 if thorough else 10} generated SEPARATOR-LIST grammars (left / right / ambiguous recursion x nullable, "
+        "left- or right-recursive, optional, bracket-nested or list-nested elements, separator possibly equal to an element "
+        "letter or multi-character, several <start> alternatives) + "
+        f"{340 if thorough else 28} random CFGs (2-4 nonterminals, 1-3 alternatives of 1-3 symbols, epsilon rate 0/.15/.3, "
+        "1-2 character terminals, <start> with 2 alternatives in 15%, <start> on a right-hand side occasionally); cyclic "
+        f"unit/nullable grammars rejected. Strings: ALL strings of length <= {N} (random CFGs) / <= 5 (list grammars; with 3 "
+        "letters: <= 5 over the first two, <= 4 over all three in the quick tier) over the grammar's alphabet + strings with a "
+        "foreign character + up to 6 random MEMBERS of the language that are up to 3 characters longer than the exhaustive "
+        "bound. Entry points: EarleyParser.parse (all strings), EarleyParser.parse_on(w, nt) for every other nonterminal and "
+        f"ISLaSolver.parse(w, nt, skip_check=True) for every nonterminal (length <= {3 if thorough else 2}). Compared: exception "
+        "kind / ordered list of the first <= 8 trees; EVERY returned tree is checked for wf_treeb, closedness, root label and "
+        "yield t = input (in Coq) and again by the python reference. non-trivial = string of length >= 1 whose membership "
+        "differs from that of another tested string of the same grammar and start symbol")
     proof_ok = run.proof_stage()
     fnd = findings()
     flags = probe_flags(run, fnd)
@@ -353,15 +480,34 @@ def run(run):
     grammars = build_cases(run, rng, thorough)
     gdefs, smeta = [], []
     hist = {"accept": 0, "SyntaxErr": 0, "other_exn": 0, "ambiguous(>1 tree)": 0, "eps_grammars": 0,
-            "multistart_grammars": 0, "recstart_grammars": 0, "solver_mode": 0, "parse_on_mode": 0}
+            "multistart_grammars": 0, "recstart_grammars": 0, "solver_mode": 0, "parse_on_mode": 0,
+            "list_grammars": 0, "corpus_grammars": 0, "trees_checked_yield": 0}
+    maxlen_seen = 0
     prop_failures = []
-    for gi, g in enumerate(grammars):
+    for gi, (g, opts) in enumerate(grammars):
         cg = {k: [list(a) for a in v] for k, v in canonical(g).items()}
-        alpha = alphabet(cg)[:3]
-        words = [""]
-        for n in range(1, N + 1):
-            words += ["".join(p) for p in itertools.product(alpha, repeat=n)]
+        alpha = (opts.get("alphabet") or alphabet(cg))[:3]
+        Ng = opts["maxlen"]
+        if opts.get("list") and len(alpha) == 3 and not thorough:
+            # all strings up to length 5 over the two most important letters (separator first ... the
+            # alphabet is in order of first occurrence), up to length 4 over all three
+            words = [""]
+            for n in range(1, Ng + 1):
+                words += ["".join(p) for p in itertools.product(alpha[:2], repeat=n)]
+            for n in range(1, Ng):
+                words += [x for x in ("".join(p) for p in itertools.product(alpha, repeat=n)) if x not in words]
+        else:
+            words = [""]
+            for n in range(1, Ng + 1):
+                words += ["".join(p) for p in itertools.product(alpha, repeat=n)]
         words += ["#", alpha[0] + "#" if alpha else "##", "#" + alpha[0] if alpha else "#a"]
+        # members of the language longer than the exhaustive bound (random derivations), corpus inputs
+        for x in sample_members(cg, rng, 6, Ng + 1, Ng + 3) + list(opts.get("extra", [])):
+            if x not in words:
+                words.append(x)
+        hist["list_grammars"] += bool(opts.get("list"))
+        hist["corpus_grammars"] += "corpus" in opts
+        maxlen_seen = max(maxlen_seen, max(len(x) for x in words))
         if any("" in v for v in g.values()):
             hist["eps_grammars"] += 1
         hist["multistart_grammars"] += K_multistart(cg, START)
@@ -390,6 +536,7 @@ def run(run):
             run.count((gi, mode, nt, w), len(w) >= 1 and len(prof[(mode, nt)]) == 2)
             if o[0] == "ok":
                 hist["accept"] += 1
+                hist["trees_checked_yield"] += len(o[1])
                 hist["ambiguous(>1 tree)"] += len(o[1]) > 1
             elif o[1] == "SyntaxErr":
                 hist["SyntaxErr"] += 1
@@ -406,7 +553,7 @@ def run(run):
         n_max = max(len(w) for w in words)
         gdefs.append((g_grammar(cg), fuel_for(cg, n_max), min(7, len(cg) + 3), lits))
         smeta.append((g, cg, cases))
-        if gi in (0, 2, 13):
+        if gi in (0, 2, 21):
             k = next((c for c in cases if c[3][0] == "ok" and len(c[2]) >= 2), cases[0])
             run.sample({"grammar": g, "mode": ["parse", "parse_on", "ISLaSolver.parse"][k[0]], "nonterminal": k[1],
                         "input": k[2], "impl": [jt(t) for t in k[3][1]] if k[3][0] == "ok" else k[3][1],
@@ -435,7 +582,7 @@ def run(run):
         shard_idx.append(back)
     run.cov["grammars"] = len(grammars)
     run.cov["histogram"] = hist
-    run.cov["max_string_length"] = N
+    run.cov["max_string_length"] = maxlen_seen
 
     ok_def = (
         "fun kc : nat * nat * nat => let '(kind, gi, i) := kc in let '(G, FUEL, LFUEL, CS) := nth gi GS GDFLT in "
@@ -479,7 +626,7 @@ def run(run):
             # the Coq oracle's verdict is explained by the python oracle's (same input) where that exists
             py = property_at(d["_cg"], d["nonterminal"], d["input"], d["_o"])
             why = py or why
-        e = classify_known(d["_cg"], d["nonterminal"], d["input"], d["_o"], why, flags, fnd)
+        e = classify_known(d["_cg"], d["nonterminal"], d["input"], d["_o"], why, flags, fnd, d.get("mode", 0))
         if e:
             run.known(e["what"])
             seen_keys.add(e["key"])
@@ -515,8 +662,8 @@ def run(run):
         "model fuel computed by the harness (item-count bound); an out-of-fuel answer of the model would show up as a disagreement",
         "DerivationTree.from_parse_tree / to_parse_tree are structure-preserving (ISLaSolver.parse results compared as parse trees)"]
     run.cov["exhaustive"] = True
-    run.cov["exhaustive_scope"] = (f"per grammar: all strings of length <= {N} over the grammar's alphabet (<= 3 letters); "
-                                   "the grammars themselves are sampled")
+    run.cov["exhaustive_scope"] = (f"per grammar: all strings of length <= {N} (separator-list grammars: <= 5) over the grammar's "
+                                   "alphabet (<= 3 letters); the grammars themselves are sampled")
 
 
 def replay(path):
